@@ -747,3 +747,12 @@ M('sweep-lineage-histogram-test-negated', ['C16'], LN, "            if k.endswit
 M('sweep-lineage-histogram-test-and', ['C16'], LN, "            if k.endswith('_buckets') or k.endswith('_counts'):", "            if k.endswith('_buckets') and k.endswith('_counts'):", ['C16.R7'])
 M('sweep-lineage-histogram-elements-negated', ['C16'], LN, "[float(x) if isinstance(x, (int, float)) else str(x) for x in v]", "[float(x) if not isinstance(x, (int, float)) else str(x) for x in v]", ['C16.R7'])
 M('sweep-lineage-reserved-names-not-in', ['C18'], LN, 'iskeyword(k) or k in ("schemaURL", "type"):', 'iskeyword(k) or k not in ("schemaURL", "type"):', ['C18.R6'])
+M('sweep-cli-dup-test-inverted', ['C12'], CLI, "        if config.id in config_by_id:\n            raise ValueError(f\"duplicate id", "        if config.id not in config_by_id:\n            raise ValueError(f\"duplicate id", ['C12.R13'])
+M('sweep-cli-rewrite-for-addresses', ['C12'], CLI, "            if is_mq_addr(\n                source\n            ):  # already pointing to real address", "            if not is_mq_addr(\n                source\n            ):  # already pointing to real address", ['C12.R13'])
+M('sweep-cli-self-source-allowed', ['C12'], CLI, "            if id == config.id:\n", "            if id != config.id:\n", ['C12.R13'])
+M('sweep-cli-reuse-branch-inverted', ['C12'], CLI, "            if id_source := source_by_id.get(\n                id\n            ):", "            if not (id_source := source_by_id.get(\n                id\n            )):", ['C12.R13'])
+M('sweep-cli-source-port-reserved-when-not-tcp', ['C12'], CLI, "            if isinstance(source, str) and source.startswith(\"tcp://\"):", "            if not (isinstance(source, str) and source.startswith(\"tcp://\")):", ['C12.R13'])
+M('sweep-cli-default-source-not-recorded', ['C12'], CLI, "        source_by_id[config.id] = (\n            output  # set first output as default source for this filter\n        )\n", "", ['C12.R13'])
+M('sweep-cli-nonempty-sources-deleted', ['C12'], CLI, "            \"sources\" in config and not config.sources\n", "            \"sources\" in config and config.sources\n", ['C12.R14'])
+M('sweep-cli-rewrites-not-written-back', ['C12'], CLI, "        config.sources = \", \".join(sources)\n", "", ['C12.R14'])
+M('sweep-cli-rewrite-loop-skips-filters-with-sources', ['C12'], CLI, "        if not (sources := split_commas_maybe(config.sources)):\n            continue\n\n        for i, source in enumerate(sources):", "        if (sources := split_commas_maybe(config.sources)):\n            continue\n\n        for i, source in enumerate(sources):", ['C12.R14'])
